@@ -15,9 +15,10 @@ static unsigned long ev_double, ev_foreign, ev_nonzero, ev_frees, ev_failed;
 static size_t nonzero_first_off, nonzero_bytes, last_free_size;
 static void *freed[64]; static int nfreed;
 static int check_zero_on_free = 1;
-/* placement of the blocks handed to the library: 0 = whatever the allocator gives, 1 = always 16 mod 32
-   (the worst case for code that wants 32-byte alignment), 2 = always 32-byte aligned.  Deterministic, so that a
-   failure that depends on the alignment of a block replays. */
+/* placement of the blocks handed to the library: 0 = whatever the allocator gives; m = 1..8 = always at
+   16 * (m - 1) bytes past a 128-byte boundary (malloc promises 16-byte alignment and nothing more, so every one of
+   these is a placement a real allocator may produce: 128-aligned, 16 mod 32, 32 mod 64, 48 mod 64, 64 mod 128, ...).
+   Deterministic, so that a failure that depends on the alignment of a block replays from its own case. */
 static int align_mode;
 void skv_mon_align_mode(int m) { align_mode = m; }
 
@@ -60,14 +61,14 @@ static void *track(void *base, size_t n) {
     void *p = base;
     if (!base) return 0;
     if (align_mode) {
-        uintptr_t a = ((uintptr_t)base + 31) & ~(uintptr_t)31;
-        if (align_mode == 1) a += 16;
+        uintptr_t a = ((uintptr_t)base + 127) & ~(uintptr_t)127;
+        a += 16u * (unsigned)((align_mode - 1) & 7);
         p = (void *)a;
     }
     if (nlive < SKV_MAXBLK) { live[nlive].p = p; live[nlive].n = n; live[nlive].id = ++next_id; live[nlive].base = base; ++nlive; }
     return p;
 }
-static size_t pad(void) { return align_mode ? 64 : 0; }
+static size_t pad(void) { return align_mode ? 256 : 0; }
 static int should_fail(void) {
     ++requests;
     if (fail_at && requests == fail_at) { ++ev_failed; return 1; }
